@@ -656,6 +656,18 @@ func main() {
 			{"rpc", 2, 2, 3, true, [][]Op{nil, seedOps("a")}},
 		}
 	}
+	if only := os.Getenv("VERIF_C12_PASSES"); only != "" { // developer aid: run a subset of the passes (evidence then says so)
+		var sel []pass
+		for _, p := range passes {
+			for _, name := range regexp.MustCompile(`[ ,]+`).Split(only, -1) {
+				if name == p.name {
+					sel = append(sel, p)
+				}
+			}
+		}
+		passes = sel
+		run.Incomplete("only the passes " + only + " were run (VERIF_C12_PASSES)")
+	}
 	cov := ev.Coverage{}
 	var tot struct{ states, transitions, validated, evaluations, nontrivial, probes, undef int64 }
 	outcomes := map[string]bool{}
